@@ -11,6 +11,7 @@ import (
 	"encoding/hex"
 	"fmt"
 	"net"
+	"os"
 	"strconv"
 
 	"verifsim/kernel"
@@ -194,6 +195,9 @@ func (c *Core) Handle(now int64, b []byte) (res Result) {
 	c.cur = &res
 	c.now = now
 	if c.cfgErr != "" {
+		// a malformed scenario is the simulator's own mistake, never a verdict about the code under test
+		fmt.Fprintln(os.Stderr, "vsim: invalid scenario:", c.cfgErr)
+		os.Exit(96)
 		panic(c.cfgErr)
 	}
 	p, err := ngap.Decode(b)
@@ -567,7 +571,8 @@ func (c *Core) credsOf(ord int) ([]byte, []byte) {
 			}
 		}
 		if e1 != nil || e2 != nil || len(k) != 16 || len(opc) != 16 {
-			panic("scenario subscriber credentials are not 16 octets of hex")
+			fmt.Fprintln(os.Stderr, "vsim: invalid scenario: subscriber credentials are not 16 octets of hex")
+			os.Exit(96)
 		}
 		return k, opc
 	}
